@@ -90,7 +90,8 @@ func (s *c18Shadow) on(ev vfHookEv) {
 }
 
 type c18Env struct {
-	nearWrap bool // the server's packet counter is moved close to 2^32 before the program starts
+	allocTwice bool // the allocator option is given more than once to the server
+	nearWrap   bool // the server's packet counter is moved close to 2^32 before the program starts
 	// option values shared by every server of the unit (the accept-loop idiom: one option list, many connections)
 	allocOpt   ServerOption
 	allocOptRS RequestServerOption
@@ -264,7 +265,7 @@ func c18Program(r *vfRand, e *c18Env) []c18Phase {
 
 // c18Serve runs the program against a fresh server and returns the concatenated response bodies per phase.
 func c18Serve(u *vfUnit, e *c18Env, alloc bool, prog []c18Phase, buf int, shadow *c18Shadow, label string) ([][]byte, bool) {
-	cfg := vfSrvCfg{Kind: e.kind, Alloc: alloc, MaxTx: e.maxTx, AllocOpt: e.allocOpt, AllocOptRS: e.allocOptRS}
+	cfg := vfSrvCfg{Kind: e.kind, Alloc: alloc, MaxTx: e.maxTx, AllocOpt: e.allocOpt, AllocOptRS: e.allocOptRS, AllocTwice: e.allocTwice}
 	if e.kind == vfRS {
 		cfg.H = e.store.Handlers(vfHandlerOpt{OpenFile: true, CmdAll: true, ListAll: true})
 	}
@@ -276,6 +277,10 @@ func c18Serve(u *vfUnit, e *c18Env, alloc bool, prog []c18Phase, buf int, shadow
 	if err != nil {
 		u.Inconclusive("connect: %v", err)
 		return nil, false
+	}
+	if alloc && rs.S.alloc() != rs.S.connAlloc() {
+		// (however often the option was given: one session, one allocator — pages are drawn and released on the same one)
+		u.Violation("allocator-split:"+e.kind.String(), label+": the connection draws its pages from another allocator than the one responses release them to", nil)
 	}
 	var out [][]byte
 	oid := uint32(1) // INIT
@@ -390,6 +395,7 @@ func c18Run(u *vfUnit) {
 			e.maxTx = []uint32{65536, 262144, 100000, 300000, 262131}[(u.Index/2)%5]
 			u.Count("programs_with_raised_max_payload", 1)
 		}
+		e.allocTwice = pi == 0 && (u.Index/4)%2 == 1
 		e.nearWrap = pi == 2
 		if e.nearWrap {
 			u.Count("programs_crossing_the_order_id_wrap", 1)
